@@ -157,6 +157,27 @@ theorem c_lex_programHeader_no_oob (buf : Bytes) (pos : Nat) (tok : CTok) :
     (scpiLex_ProgramHeader (st buf pos) tok).1.oob = false ∧ (scpiLex_ProgramHeader (st buf pos) tok).1.ub = false := by
   rw [scpiLex_ProgramHeader_ref]; exact ⟨rfl, rfl⟩
 
+/-- the quote loop: stops at a lone quote, at a byte >= 0x80 or at the end of the input (`q` as the plain char `sc q`) -/
+theorem c_lex_skipQuote (buf : Bytes) (pos : Nat) (q : UInt8) :
+    skipQuoteProgramData (st buf pos) (sc q) = st buf (skipQuote buf q (buf.length - pos + 1) pos) := by
+  have h1 : -128 ≤ sc q := by simp only [sc]; split <;> omega
+  have h2 : sc q ≤ 127 := by simp only [sc]; have := UInt8.toNat_lt q; split <;> omega
+  rw [skipQuoteProgramData_ref buf pos (sc q) h1 h2, uc_sc]
+
+theorem c_lex_string (buf : Bytes) (pos : Nat) (h : pos ≤ buf.length) (tok : CTok) :
+    scpiLex_StringProgramData (st buf pos) tok = res buf (lexString buf pos) ∧ Agrees .string buf pos (lexString buf pos) :=
+  ⟨scpiLex_StringProgramData_ref buf pos tok, Props.C13.string_spec buf pos h⟩
+theorem c_lex_string_no_oob (buf : Bytes) (pos : Nat) (tok : CTok) :
+    (scpiLex_StringProgramData (st buf pos) tok).1.oob = false ∧ (scpiLex_StringProgramData (st buf pos) tok).1.ub = false := by
+  rw [scpiLex_StringProgramData_ref]; exact ⟨rfl, rfl⟩
+
+theorem c_lex_expression (buf : Bytes) (pos : Nat) (h : pos ≤ buf.length) (tok : CTok) :
+    scpiLex_ProgramExpression (st buf pos) tok = res buf (lexExpression buf pos) ∧ Agrees .expression buf pos (lexExpression buf pos) :=
+  ⟨scpiLex_ProgramExpression_ref buf pos tok, Props.C13.expression_spec buf pos h⟩
+theorem c_lex_expression_no_oob (buf : Bytes) (pos : Nat) (tok : CTok) :
+    (scpiLex_ProgramExpression (st buf pos) tok).1.oob = false ∧ (scpiLex_ProgramExpression (st buf pos) tok).1.ub = false := by
+  rw [scpiLex_ProgramExpression_ref]; exact ⟨rfl, rfl⟩
+
 /-! ### kernel-evaluated examples on the generated text -/
 
 -- "1.5E+3 V;" (9 bytes) at offset 0: the number is 6 bytes long, the cursor stops before the space, nothing read outside
@@ -188,5 +209,16 @@ example : scpiLex_ProgramHeader (st [42, 73, 68, 78] 0) ⟨0, 0, 0⟩ = (st [42,
 example : scpiLex_ProgramHeader (st [42] 0) ⟨0, 0, 0⟩ = (st [42] 1, ⟨20, 0, 1⟩, 1) := by decide +kernel
 -- ":A:b? " : compound query header of 5 bytes
 example : scpiLex_ProgramHeader (st [58, 65, 58, 98, 63, 32] 0) ⟨0, 0, 0⟩ = (st [58, 65, 58, 98, 63, 32] 5, ⟨21, 0, 5⟩, 5) := by decide +kernel
+-- `"abc` without the closing quote: the loop runs to the end of the input, the test for the closing quote is not reached
+-- (`!iseos(state) &&`), cursor restored, no token, nothing read at offset 4
+example : scpiLex_StringProgramData (st [34, 97, 98, 99] 0) ⟨0, 0, 0⟩ = (st [34, 97, 98, 99] 0, ⟨26, 0, 0⟩, 0) := by decide +kernel
+-- `"a""b"c`: the doubled quote is skipped as a pair (pos++ ... pos++), the lone one ends the string (pos++ ... pos--)
+example : scpiLex_StringProgramData (st [34, 97, 34, 34, 98, 34, 99] 0) ⟨0, 0, 0⟩ = (st [34, 97, 34, 34, 98, 34, 99] 6, ⟨15, 0, 6⟩, 6) := by
+  decide +kernel
+-- `'a'` ending in the closing quote: the look-ahead for a doubled quote stops at the end of the input
+example : scpiLex_StringProgramData (st [39, 97, 39] 0) ⟨0, 0, 0⟩ = (st [39, 97, 39] 3, ⟨14, 0, 3⟩, 3) := by decide +kernel
+-- `(@1` without ')' and `(@1)`
+example : scpiLex_ProgramExpression (st [40, 64, 49] 0) ⟨0, 0, 0⟩ = (st [40, 64, 49] 0, ⟨26, 0, 0⟩, 0) := by decide +kernel
+example : scpiLex_ProgramExpression (st [40, 64, 49, 41] 0) ⟨0, 0, 0⟩ = (st [40, 64, 49, 41] 4, ⟨16, 0, 4⟩, 4) := by decide +kernel
 
 end ScpiVerif.Props.C13Gen
